@@ -62,7 +62,8 @@ def expected(a):
     tidx = {t[0]: i for i, t in enumerate(T)}
     nD, nT, start = len(D), len(T), ridx[a["ST"][0]]
     if eco:     # ^: ^~ ;  ~: t ~ | ... | ;  ^~: ~ S
-        added = [([5], 0)] + [([2 * tidx[t], 3], 1) for t in ito] + [([], 1), ([3, 2 * start + 1], 2)]
+        # one production per implicit token, in token (first occurrence) order — not in hash-map order
+        added = [([5], 0)] + [([2 * tidx[t[0]], 3], 1) for t in T if t[0] in ito] + [([], 1), ([3, 2 * start + 1], 2)]
     else:       # ^: S
         added = [([2 * start + 1], 0)]
     rl, pl = off + len(R), nD + len(added)
@@ -299,5 +300,5 @@ def run_part(ctx, gate=True):
         "a Python oracle.  non-trivial = valid AST with >= 2 rules or >= 3 productions and >= 2 kinds of declaration; distinct by case line")
     ctx.coverage["queries"] = queries
     ctx.assumptions += [
-        "the HashMap iteration order of implicit_tokens is taken from the same AST object the constructor iterates (ITO section of the dump)",
+        "HashMap/IndexMap/IndexSet are modelled as association lists / ordered lists with unique keys (wf_astb checks uniqueness on every dumped AST)",
         "narrowing of indices to the storage type u32 is not modelled here (C20)"]
